@@ -191,6 +191,10 @@ example : walk Skeleton.pinned "" false [.struct "inner" false [.func "F" true s
 theorem C18_total : ∀ fs : List Field, walk Skeleton.current "" false fs ≠ .panic :=
   fun fs => walk_total _ cur_rwstd (by decide) fs "" false
 
+/-- Caller-side naming and callee-side lookup agree also for names the peer does NOT have: the resolver's fallback sees exactly one method, `CallClosure`, on the closure manager (checked against the regenerated skeleton; `rpc/manager.go` is outside this property's anchors) — a function field called like any further exported method of the manager would be resolved to library code. -/
+theorem C18_lookup_resolves_nothing_but_the_exposed_paths :
+    Skeleton.current.lkClosureManagerMethods = ["CallClosure"] := by decide
+
 end Panrpc.Rw
 
 #print axioms Panrpc.Rw.C18_validate_iff
@@ -206,3 +210,4 @@ end Panrpc.Rw
 #print axioms Panrpc.Rw.C18_naming_agrees
 #print axioms Panrpc.Rw.C18_panics_on_pinned
 #print axioms Panrpc.Rw.C18_total
+#print axioms Panrpc.Rw.C18_lookup_resolves_nothing_but_the_exposed_paths
